@@ -11,5 +11,6 @@ void catalogue_part3(std::vector<LoggerEntry>& c)
     c.push_back(Ops<RecNoTag, TF3, nl::sink::StdErrThreaded>::entry(3, SK_STDERR_MT));
     c.push_back(Ops<RecTag, TF0, SeqMt>::entry(0, SK_SEQ_MT));
     c.push_back(Ops<RecNoTag, TF7, SeqMt>::entry(7, SK_SEQ_MT));
+    c.push_back(Ops<RecTag, TF8, RecSink<0>>::entry(8, SK_REC));
 }
 } // namespace lsx
